@@ -506,7 +506,7 @@ func genC18(c *lib.Ctx) {
 				e2 := expected(p, res2)
 				in2 := e2.t0.IsInt64() && e2.t0.Int64() >= res2.tGo.UnixNano()-5e6 && e2.t0.Int64() <= res2.rx.UnixNano()+5e6
 				if ans2 := runAnswer(p, res2); ans2 != runOK {
-					c.Fail("C18:csptp-client-offset", "the offset / mean path delay the CSPTP client returns for a complete exchange is not the exact formula on the exchange's timestamps and corrections (deviation in ns; independent of the announced UTC offset)",
+					c.Fail("C18:csptp-client-offset", "what the CSPTP client returns (offset) or logs (mean path delay, one-way delays) for a complete exchange is not the exact formula on the exchange's timestamps and corrections; deviations in ns, the offset must not depend on the announced UTC offset (t0 is recovered from the logged C2S delay: a wrong C2S delay shows as equal deviations of offset and mean path delay)",
 						[]string{op}, map[string]any{"answer": ans2, "first": ans, "utc_valid": p.fl&csptp.FlagCurrentUTCOffsetValid != 0, "utc_offset_s": p.utc,
 							"returned_offset": res2.off, "expected_offset": e2.off.String(), "client": res2.clientLine})
 				} else if !in2 && !inWindow {
